@@ -34,6 +34,7 @@ def dispatch (stream : String) (toks : List String) : Verdict :=
   | "json" => runP json toks
   | "build" => runP build toks
   | "std" => runP stdCase toks
+  | "stdall" => runP stdAllCase toks
   | "meta" => runP metaCase toks
   | "tinfo" => runP tinfoCase toks
   | "derive" => runP deriveCase toks
